@@ -6,20 +6,47 @@ import (
 	"strconv"
 	"strings"
 	"testing"
+	"time"
 )
 
 // TestVerifC02Seq: sequential histories against MeterProvider + manual/periodic readers.
-//   seq <gen> <readers> <insts> | add j a v | col r | tick r | flush | shut | rshut r … => <record> <record> …
+//   seq <gen> <readers> <insts>[+cb][+to] | add j a v | col r | tick r | flush | shut | rshut r
+//        | collectx r k | collectc r | collectb r | tickx r k | flushx k … => <record> <record> …
+// readers: <m|p><d|c><d|c>[<u|c|b|D>] (4th char: the reader's AggregationSelector rejects / drops a sum kind).
+// collectx r k: Collect whose context is cancelled (by a hook exemplar reservoir) while instrument k is aggregated;
+// collectc r: Collect with an already-cancelled context; collectb r: Collect whose context is cancelled by the
+// observable callback (+cb); tickx r k / flushx k: interval export / ForceFlush of a short-timeout periodic reader (+to)
+// whose timeout elapses while instrument k is aggregated.
 // record = "<op index>:<reader>:<ok|err>;<inst><d|c><m|n>:<attr>=<value>,…;…" for every collection that happened.
 func TestVerifC02Seq(t *testing.T) {
 	out := vOpen(t)
 	defer out.Close()
 	c02InstallTicker(t)
+	c02InstallErrHandler(t)
 
 	run := func(gen string, cfg c02Cfg, ops [][]string) {
+		for _, op := range ops {
+			if op[0] == "collectx" || op[0] == "tickx" || op[0] == "flushx" {
+				cfg.hooks = true
+			}
+		}
 		s := c02New(cfg)
 		defer s.close()
-		ctx := context.Background()
+		// callers wait long enough: only the reader's own timeout (+to) can fire
+		ctx, cancelAll := context.WithTimeout(context.Background(), 60*time.Second)
+		defer cancelAll()
+		status := func(i, r int, st string) {
+			s.mu.Lock()
+			s.recs = append(s.recs, fmt.Sprintf("%d:%d:%s", i, r, st))
+			s.mu.Unlock()
+		}
+		setHook := func(k int, f func()) func() {
+			if k < len(s.hooks) {
+				s.hooks[k].set(f)
+				return func() { s.hooks[k].set(nil) }
+			}
+			return func() {}
+		}
 		atoi := func(x string) int { n, _ := strconv.Atoi(x); return n }
 		for i, op := range ops {
 			s.mu.Lock()
@@ -35,14 +62,46 @@ func TestVerifC02Seq(t *testing.T) {
 				if r := atoi(op[1]); r < len(s.readers) {
 					s.collect(i, r)
 				}
-			case "tick":
-				if r := atoi(op[1]); r < len(s.readers) && s.ticks[r] != nil && !s.down[r] {
-					if !s.tick(r) {
-						s.mu.Lock()
-						s.recs = append(s.recs, fmt.Sprintf("%d:%d:hang", i, r))
-						s.mu.Unlock()
-					}
+			case "collectx":
+				if r := atoi(op[1]); r < len(s.readers) {
+					cctx, cancel := context.WithCancel(context.Background())
+					clear := setHook(atoi(op[2]), cancel)
+					s.collectCtx(cctx, i, r)
+					clear()
+					cancel()
 				}
+			case "collectc":
+				if r := atoi(op[1]); r < len(s.readers) {
+					cctx, cancel := context.WithCancel(context.Background())
+					cancel()
+					s.collectCtx(cctx, i, r)
+				}
+			case "collectb":
+				if r := atoi(op[1]); r < len(s.readers) {
+					cctx, cancel := context.WithCancel(context.Background())
+					s.cbHook.set(cancel)
+					s.collectCtx(cctx, i, r)
+					s.cbHook.set(nil)
+					cancel()
+				}
+			case "tick", "tickx":
+				if r := atoi(op[1]); r < len(s.readers) && s.ticks[r] != nil && !s.down[r] {
+					clear := func() {}
+					if op[0] == "tickx" && cfg.to {
+						clear = setHook(atoi(op[2]), func() { time.Sleep(2*c02ShortTimeout + 10*time.Millisecond) })
+					}
+					if st := s.tickStatus(r); st != "ok" {
+						status(i, r, st)
+					}
+					clear()
+				}
+			case "flushx":
+				clear := func() {}
+				if cfg.to {
+					clear = setHook(atoi(op[1]), func() { time.Sleep(2*c02ShortTimeout + 10*time.Millisecond) })
+				}
+				_ = s.mp.ForceFlush(ctx)
+				clear()
 			case "flush":
 				_ = s.mp.ForceFlush(ctx)
 			case "shut":
@@ -117,7 +176,30 @@ func TestVerifC02Seq(t *testing.T) {
 		rec(nil, 0)
 	}
 
+	if os_exhaustive() {
+		// all histories of length <= 4 over 8 symbols with a rejecting reader registered FIRST, cancelled collections
+		// and an observable callback
+		cfg := c02ParseCfg("mddu,mdd,pdc", "ic,iu+cb")
+		alpha := [][]string{{"add", "0", "1", "1"}, {"add", "1", "1", "-4"}, {"col", "1"}, {"collectx", "1", "0"},
+			{"collectc", "1"}, {"tick", "2"}, {"collectx", "2", "0"}, {"col", "0"}}
+		tail := [][]string{{"col", "0"}, {"col", "1"}, {"col", "2"}}
+		var rec func(prefix [][]string, depth int)
+		rec = func(prefix [][]string, depth int) {
+			if len(prefix) > 0 {
+				run("exh2", cfg, append(append([][]string{}, prefix...), tail...))
+			}
+			if depth == 4 {
+				return
+			}
+			for _, a := range alpha {
+				rec(append(append([][]string{}, prefix...), a), depth+1)
+			}
+		}
+		rec(nil, 0)
+	}
+
 	temps := []string{"d", "c"}
+	rejs := []string{"u", "c", "b", "D"}
 	for i := 0; i < n; i++ {
 		gen := "rnd"
 		var rs, is []string
@@ -125,28 +207,58 @@ func TestVerifC02Seq(t *testing.T) {
 		for k := 0; k < nr; k++ {
 			rs = append(rs, "m"+vPick(r, temps)+vPick(r, temps))
 		}
-		if r.Intn(4) != 0 {
+		hasP := r.Intn(4) != 0
+		if hasP {
 			p := "p" + vPick(r, temps) + vPick(r, temps)
 			at := r.Intn(len(rs) + 1)
 			rs = append(rs[:at], append([]string{p}, rs[at:]...)...)
+		}
+		// rejecting / dropping readers before, between and after the normal ones
+		if r.Intn(3) == 0 {
+			gen = "rej"
+			for k := range rs {
+				if r.Intn(3) == 0 {
+					rs[k] += vPick(r, rejs)
+				}
+			}
+			if r.Bool() {
+				x := "m" + vPick(r, temps) + vPick(r, temps) + vPick(r, rejs)
+				at := r.Intn(len(rs) + 1)
+				if r.Intn(3) == 0 {
+					at = 0
+				}
+				rs = append(rs[:at], append([]string{x}, rs[at:]...)...)
+			}
 		}
 		ni := 1 + r.Intn(4)
 		for k := 0; k < ni; k++ {
 			is = append(is, vPick(r, []string{"ic", "iu", "fc", "fu"}))
 		}
-		cfg := c02ParseCfg(strings.Join(rs, ","), strings.Join(is, ","))
+		flags := ""
+		withCb := r.Intn(4) == 0
+		withTo := !withCb && hasP && r.Intn(50*max(1, n/5000)) == 0 // ~50 short-timeout histories per run (each costs ~0.1-0.3 s)
+		if withCb {
+			flags += "+cb"
+		}
+		if withTo {
+			flags += "+to"
+			gen = "timeout"
+		}
+		cfg := c02ParseCfg(strings.Join(rs, ","), strings.Join(is, ",")+flags)
 		nops := 5 + r.Intn(56)
 		nattr := 1 + r.Intn(5)
-		late := r.Intn(8) == 0 // shutdown-heavy history
+		late := !withTo && r.Intn(8) == 0 // shutdown-heavy history
 		if late {
 			gen = "shut"
 		}
 		var ops [][]string
+		nx := 0
 		for k := 0; k < nops; k++ {
 			x := r.Intn(100)
 			rd := strconv.Itoa(r.Intn(len(cfg.readers)))
+			ki := strconv.Itoa(r.Intn(len(cfg.insts)))
 			switch {
-			case x < 55:
+			case x < 52:
 				j := r.Intn(len(cfg.insts))
 				var v int64
 				switch r.Intn(6) {
@@ -161,19 +273,38 @@ func TestVerifC02Seq(t *testing.T) {
 					v = -v
 				}
 				ops = append(ops, []string{"add", strconv.Itoa(j), strconv.Itoa(1 + r.Intn(nattr)), strconv.FormatInt(v, 10)})
-			case x < 75:
+			case x < 66:
 				ops = append(ops, []string{"col", rd})
-			case x < 87:
-				ops = append(ops, []string{"tick", rd})
-			case x < 94:
+			case x < 73:
+				ops = append(ops, []string{"collectx", rd, ki})
+			case x < 76:
+				ops = append(ops, []string{"collectc", rd})
+			case x < 78:
+				ops = append(ops, []string{"collectb", rd})
+			case x < 88:
+				if withTo && nx < 3 && r.Intn(3) == 0 {
+					nx++
+					if r.Bool() {
+						ops = append(ops, []string{"tickx", rd, ki})
+					} else {
+						ops = append(ops, []string{"flushx", ki})
+					}
+				} else {
+					ops = append(ops, []string{"tick", rd})
+				}
+			case x < 95:
 				ops = append(ops, []string{"flush"})
-			case x < 96 || (late && x < 98):
+			case late && x < 98:
 				ops = append(ops, []string{"shut"})
-			case x < 98 || late:
+			case late:
 				ops = append(ops, []string{"rshut", rd})
 			default:
 				ops = append(ops, []string{"col", rd})
 			}
+		}
+		// every history ends with one undisturbed collection per reader, so that nothing stays hidden as "pending"
+		for k := range cfg.readers {
+			ops = append(ops, []string{"col", strconv.Itoa(k)})
 		}
 		run(gen, cfg, ops)
 	}
